@@ -46,6 +46,10 @@ type coqCase struct {
 
 // writeShards writes Coq case files. imports: module list; admits/spec: function names.
 func writeShards(dir, prop string, imports string, scenTy, obsTy, admits, spec string, cases, controls []coqCase) (int, error) {
+	mobsFn := "engine_mobs"
+	if scenTy != "escen" {
+		mobsFn = scenTy + "_mobs"
+	}
 	nsh := 0
 	for start := 0; start < len(cases) || (start == 0 && nsh == 0); start += shardSize {
 		end := start + shardSize
@@ -62,7 +66,7 @@ func writeShards(dir, prop string, imports string, scenTy, obsTy, admits, spec s
 			fmt.Fprintf(&sb, "  (%d,\n   %s,\n   %s)", c.id, c.scen, c.obs)
 		}
 		sb.WriteString("\n].\n")
-		fmt.Fprintf(&sb, "Definition bad := Eval vm_compute in failing %s %s cases.\nPrint bad.\n", admits, spec)
+		fmt.Fprintf(&sb, "Definition bad := Eval vm_compute in failing4 %s %s %s cases.\nPrint bad.\n", admits, spec, mobsFn)
 		if nsh == 0 {
 			fmt.Fprintf(&sb, "Definition controls : list (nat * %s * %s) := [\n", scenTy, obsTy)
 			for i, c := range controls {
